@@ -81,6 +81,7 @@ struct BodyWalker {
     nested_fns: Vec<Value>,
     attrs: Vec<Value>,
     awaits: Vec<Value>,
+    span_scopes: Vec<Value>,
     closure_depth: usize,
 }
 impl BodyWalker {
@@ -93,6 +94,7 @@ impl BodyWalker {
             nested_fns: vec![],
             attrs: vec![],
             awaits: vec![],
+            span_scopes: vec![],
             closure_depth: 0,
         }
     }
@@ -236,6 +238,23 @@ impl<'ast> Visit<'ast> for BodyWalker {
     fn visit_expr_macro(&mut self, m: &'ast syn::ExprMacro) {
         self.mac(&m.mac, m.span(), false, false);
     }
+    fn visit_expr_method_call(&mut self, e: &'ast syn::ExprMethodCall) {
+        // `<span macro>!(..).in_scope(|| BODY)`: tracing::Span::in_scope runs the closure inside the span and returns its value
+        if e.method == "in_scope" && e.args.len() == 1 {
+            if let (syn::Expr::Macro(m), Some(syn::Expr::Closure(c))) = (&*e.receiver, e.args.first()) {
+                let name = m.mac.path.segments.last().map(|s| s.ident.to_string()).unwrap_or_default();
+                if c.inputs.is_empty() && name.ends_with("_span") {
+                    self.span_scopes.push(json!({"span": rng(e.span()), "body": rng(c.body.span()), "macro": name}));
+                    // descend into the body only: the macro itself is dropped together with the wrapper
+                    self.closure_depth += 1;
+                    visit::visit_expr(self, &c.body);
+                    self.closure_depth -= 1;
+                    return;
+                }
+            }
+        }
+        visit::visit_expr_method_call(self, e);
+    }
     fn visit_local(&mut self, l: &'ast syn::Local) {
         let mut ids = vec![];
         pat_idents(&l.pat, &mut ids);
@@ -313,6 +332,7 @@ impl Indexer {
             v["nested_fns"] = Value::Array(w.nested_fns);
             v["body_attrs"] = Value::Array(w.attrs);
             v["awaits"] = Value::Array(w.awaits);
+            v["span_scopes"] = Value::Array(w.span_scopes);
         }
         v
     }
